@@ -149,6 +149,10 @@ def leaves(node, env, out, op=None, opname=None):
                 if H.kind(s["pat"]) == "Bind" and s.get("init") is not None:
                     # statements inside the initializer may push / return as well
                     leaves_in_expr(s["init"], e2, out, op, opname)
+                    if "Mut" in (s["pat"].get("mode") or "") and s["pat"]["name"] in S.reassigned_in(node):
+                        e2.roles.pop(s["pat"]["name"], None)
+                        e2.inline.pop(s["pat"]["name"], None)
+                        continue
                     ce = e2.child()
                     e2.roles.pop(s["pat"]["name"], None)
                     e2.inline[s["pat"]["name"]] = (s["init"], ce)
